@@ -87,6 +87,7 @@ var whitelist = []FuncSpec{
 	{"pkg/provider", "IdentityProvider", "loginResponse"},
 	{"pkg/provider", "IdentityProvider", "errorResponse"},
 	{"pkg/provider", "IdentityProvider", "callbackHandleFunc"},
+	{"pkg/provider", "Response", "sendBackResponse"},
 }
 
 // extraFields are struct fields the hand-written handler models read although no translated function does.
@@ -479,6 +480,7 @@ type tctx struct {
 	// hasEff: the function performs observable effects (http.Error, sendBack…): the frame carries their trace `eff_`,
 	// which is returned after the results and in-out values
 	hasEff bool
+	writeSites int
 	// wbOK: the call being translated sits in a statement position that writes in-out values back
 	wbOK bool
 }
@@ -919,7 +921,33 @@ func (c *tctx) effectCall(e ast.Expr) (v val, ok bool) {
 				reg("httpError", []string{"String", "Int"})
 				return val{e: fmt.Sprintf("(Eff.httpError %s %s)", m.e, code.e), g: append(m.g, code.g...)}, true
 			}
+			if pn.Imported().Path() == "net/http" && sel.Sel.Name == "Redirect" && len(x.Args) == 4 {
+				u := c.expr(x.Args[2])
+				code := c.expr(x.Args[3])
+				reg("httpRedirect", []string{"String", "Int"})
+				return val{e: fmt.Sprintf("(Eff.httpRedirect %s %s)", u.e, code.e), g: append(u.g, code.g...)}, true
+			}
 			return val{}, false
+		}
+	}
+	if sl := c.info.Selections[sel]; sl != nil && sl.Kind() == types.FieldVal {
+		// a callback stored in a struct field (Response.ErrorFunc): its call is an effect named after the field
+		if sig, ok := sl.Obj().Type().Underlying().(*types.Signature); ok && sig.Results().Len() == 0 {
+			var es, tys, g []string
+			for i, a := range x.Args {
+				v := c.expr(a)
+				if c.info.TypeOf(a).String() == "error" {
+					v.e = "(" + v.e + ".getD \"\")"
+					tys = append(tys, "String")
+				} else {
+					tys = append(tys, c.w.leanType(sig.Params().At(i).Type()))
+				}
+				es = append(es, v.e)
+				g = append(g, v.g...)
+			}
+			name := "call" + sel.Sel.Name
+			reg(name, tys)
+			return val{e: fmt.Sprintf("(Eff.%s %s)", name, strings.Join(es, " ")), g: g}, true
 		}
 	}
 	if effectMethods[sel.Sel.Name] {
@@ -945,6 +973,47 @@ func (c *tctx) effectCall(e ast.Expr) (v val, ok bool) {
 	return val{}, false
 }
 
+
+// effectResultCall recognises calls that write to the client *and* return an error (`xml.Write(w, data)`,
+// `template.Execute(w, data)`): the write is an effect, the error it returns an oracle indexed by the calling function and
+// the call site within it
+func (c *tctx) effectResultCall(e ast.Expr) (eff val, result string, ok bool) {
+	x, isCall := e.(*ast.CallExpr)
+	if !isCall || !c.hasEff {
+		return val{}, "", false
+	}
+	sel, isSel := x.Fun.(*ast.SelectorExpr)
+	if !isSel || len(x.Args) != 2 || !isIgnoredType(c.info.TypeOf(x.Args[0])) {
+		return val{}, "", false
+	}
+	reg := func(name string, tys []string) {
+		if _, has := c.w.effs[name]; !has {
+			c.w.effs[name] = tys
+			c.w.effOrd = append(c.w.effOrd, name)
+		}
+	}
+	name := ""
+	if id, isId := sel.X.(*ast.Ident); isId {
+		if pn, isPkg := c.info.Uses[id].(*types.PkgName); isPkg && strings.HasSuffix(pn.Imported().Path(), "pkg/provider/xml") && sel.Sel.Name == "Write" {
+			name = "xmlWrite"
+		}
+	}
+	if name == "" {
+		if t := c.info.TypeOf(sel.X); t != nil && t.String() == "*html/template.Template" && sel.Sel.Name == "Execute" {
+			name = "templateExecute"
+		}
+	}
+	if name == "" {
+		return val{}, "", false
+	}
+	a := c.expr(x.Args[1])
+	reg(name, []string{c.w.leanType(c.info.TypeOf(x.Args[1]))})
+	o := c.oracle("writeErr", "String → Nat → Err", "the error a write to the client returns (xml.Write, template.Execute), by calling function and call site")
+	k := c.writeSites
+	c.writeSites++
+	return val{e: fmt.Sprintf("(Eff.%s %s)", name, a.e), g: a.g}, fmt.Sprintf("(%s %s %d)", o, leanStr(c.f.lean), k), true
+}
+
 // hasEffects: does the body contain an effect call (syntactic pre-scan)
 func hasEffects(body *ast.BlockStmt, info *types.Info) bool {
 	found := false
@@ -956,10 +1025,17 @@ func hasEffects(body *ast.BlockStmt, info *types.Info) bool {
 						found = true
 					}
 					if id, ok := sel.X.(*ast.Ident); ok {
-						if pn, ok := info.Uses[id].(*types.PkgName); ok && pn.Imported().Path() == "net/http" && sel.Sel.Name == "Error" {
+						if pn, ok := info.Uses[id].(*types.PkgName); ok && pn.Imported().Path() == "net/http" && (sel.Sel.Name == "Error" || sel.Sel.Name == "Redirect") {
 							found = true
 						}
 					}
+				}
+			}
+		}
+		if x, ok := n.(*ast.CallExpr); ok {
+			if sel, ok := x.Fun.(*ast.SelectorExpr); ok && len(x.Args) == 2 && (sel.Sel.Name == "Write" || sel.Sel.Name == "Execute") {
+				if t := info.TypeOf(x.Args[0]); t != nil && isIgnoredType(t) {
+					found = true
 				}
 			}
 		}
@@ -976,7 +1052,7 @@ func hasEffects(body *ast.BlockStmt, info *types.Info) bool {
 var outParamMethods = map[string]int{"SetUserinfoWithUserID": 1, "SetUserinfoWithLoginName": 0}
 
 // funcOracles: untranslated package-level functions that may be called as oracles (typed by their Go signature)
-var funcOracles = map[string]bool{"createRedirectSignature": true, "createPostSignature": true}
+var funcOracles = map[string]bool{"createRedirectSignature": true, "createPostSignature": true, "Marshal": true, "DeflateAndBase64": true}
 
 // scanInout finds the pointer parameters of f that the body assigns through, directly or by passing them to a
 // translated callee that does (callees are translated first: whitelist order).
@@ -1289,6 +1365,16 @@ func (c *tctx) assign(s *ast.AssignStmt, rest []ast.Stmt, ind string) string {
 	if tok != ":=" && tok != "=" {
 		panic("unsupported assignment operator " + tok)
 	}
+	if len(s.Rhs) == 1 && len(s.Lhs) == 1 {
+		if eff, res, ok := c.effectResultCall(s.Rhs[0]); ok {
+			n := lhsName(s.Lhs[0], nil)
+			out := fmt.Sprintf("%slet s := { s with eff_ := s.eff_ ++ [%s] };\n", ind, eff.e)
+			if n != "" {
+				out += fmt.Sprintf("%slet s := { s with %s := %s };\n", ind, n, res)
+			}
+			return guardWrap(eff.g, ind, out+c.stmts(rest, ind))
+		}
+	}
 	if len(s.Rhs) == 1 {
 		if v, nres, wb, ok := c.writeBackCall(s.Rhs[0]); ok {
 			return c.assignWB(s.Lhs, lhsName, v, nres, wb, rest, ind)
@@ -1388,6 +1474,16 @@ func (c *tctx) nilOf(t types.Type) string {
 		return "[]"
 	}
 	return "default"
+}
+
+func leanChar(r rune) string {
+	switch r {
+	case '\'':
+		return "'\\''"
+	case '\\':
+		return "'\\\\'"
+	}
+	return "'" + string(r) + "'"
 }
 
 func leanStr(s string) string {
@@ -1513,6 +1609,20 @@ func (c *tctx) expr(e ast.Expr) val {
 		panic("unsupported unary " + x.Op.String())
 	case *ast.BinaryExpr:
 		return c.binary(x)
+	case *ast.SliceExpr:
+		// s[:i], s[i:] on a string: byte offsets (Lib.byteTake / Lib.byteDrop); out of range panics as in Go
+		if b, ok := c.info.TypeOf(x.X).Underlying().(*types.Basic); !ok || b.Info()&types.IsString == 0 || x.Slice3 || (x.Low != nil && x.High != nil) || (x.Low == nil && x.High == nil) {
+			panic("unsupported slice expression " + c.src(x))
+		}
+		sv := c.expr(x.X)
+		if x.High != nil {
+			iv := c.expr(x.High)
+			g := append(append(sv.g, iv.g...), fmt.Sprintf("decide (%s < 0)", iv.e), fmt.Sprintf("decide (%s > Lib.goLen %s)", iv.e, sv.e))
+			return val{e: fmt.Sprintf("(Lib.byteTake %s %s)", sv.e, iv.e), g: g}
+		}
+		iv := c.expr(x.Low)
+		g := append(append(sv.g, iv.g...), fmt.Sprintf("decide (%s < 0)", iv.e), fmt.Sprintf("decide (%s > Lib.goLen %s)", iv.e, sv.e))
+		return val{e: fmt.Sprintf("(Lib.byteDrop %s %s)", sv.e, iv.e), g: g}
 	case *ast.CallExpr:
 		return c.call(x)
 	case *ast.CompositeLit:
@@ -1838,22 +1948,7 @@ func (c *tctx) call(x *ast.CallExpr) val {
 			return val{e: fmt.Sprintf("(%s %s %d)", o, leanStr(c.f.lean), k)}
 		}
 		if f, ok := obj.(*types.Func); ok && funcOracles[f.Name()] && f.Pkg() != nil && strings.Contains(f.Pkg().Path(), "zitadel/saml") {
-			// an untranslated function of the library used as an oracle, typed by its Go signature
-			sig := f.Type().(*types.Signature)
-			es, g := c.args(x)
-			var ats, rts []string
-			for i := 0; i < sig.Params().Len(); i++ {
-				ats = append(ats, c.w.leanType(sig.Params().At(i).Type()))
-			}
-			for i := 0; i < sig.Results().Len(); i++ {
-				rts = append(rts, c.w.leanType(sig.Results().At(i).Type()))
-			}
-			rt := "Unit"
-			if len(rts) > 0 {
-				rt = strings.Join(rts, " × ")
-			}
-			o := c.oracle("f_"+f.Name(), strings.Join(append(ats, rt), " → "), "function "+f.FullName()+" (not translated)")
-			return val{e: fmt.Sprintf("(%s %s)", o, strings.Join(es, " ")), g: g}
+			return c.funcOracle(f, x)
 		}
 		panic("unsupported call " + c.src(x))
 	case *ast.SelectorExpr:
@@ -1973,7 +2068,44 @@ func (c *tctx) callTranslated(callee *fn, x *ast.CallExpr) val {
 	return val{e: call + ".get", g: append(g, call+".isPanic")}
 }
 
+
+// funcOracle: an untranslated function of the library used as an oracle, typed by its Go signature
+func (c *tctx) funcOracle(f *types.Func, x *ast.CallExpr) val {
+		// an untranslated function of the library used as an oracle, typed by its Go signature
+		sig := f.Type().(*types.Signature)
+		es, g := c.args(x)
+		var ats, rts []string
+		oname := "f_" + f.Name()
+		for i := 0; i < sig.Params().Len(); i++ {
+			pt := sig.Params().At(i).Type()
+			if _, isIface := pt.Underlying().(*types.Interface); isIface && !isIgnoredType(pt) && i < len(x.Args) {
+				// interface{} parameter: the oracle is typed (and named) by the argument it is given here
+				pt = c.info.TypeOf(x.Args[i])
+				if n := namedStruct(pt); n != nil {
+					oname += "_" + n.Obj().Name()
+				}
+			}
+			ats = append(ats, c.w.leanType(pt))
+		}
+		for i := 0; i < sig.Results().Len(); i++ {
+			rts = append(rts, c.w.leanType(sig.Results().At(i).Type()))
+		}
+		rt := "Unit"
+		if len(rts) > 0 {
+			rt = strings.Join(rts, " × ")
+		}
+		o := c.oracle(oname, strings.Join(append(ats, rt), " → "), "function "+f.FullName()+" (not translated)")
+		return val{e: fmt.Sprintf("(%s %s)", o, strings.Join(es, " ")), g: g}
+}
+
 func (c *tctx) libCall(pkg, name string, x *ast.CallExpr) val {
+	if strings.Contains(pkg, "zitadel/saml") && funcOracles[name] {
+		if sel, ok := x.Fun.(*ast.SelectorExpr); ok {
+			if f, ok := c.info.Uses[sel.Sel].(*types.Func); ok {
+				return c.funcOracle(f, x)
+			}
+		}
+	}
 	es, g := c.args(x)
 	switch pkg + "." + name {
 	case "strconv.Atoi":
@@ -1993,6 +2125,19 @@ func (c *tctx) libCall(pkg, name string, x *ast.CallExpr) val {
 		return val{e: fmt.Sprintf("(Lib.join %s %s)", es[0], es[1]), g: g}
 	case "strings.ContainsAny":
 		return val{e: fmt.Sprintf("(Lib.containsAny %s %s)", es[0], es[1]), g: g}
+	case "strings.Index", "strings.Contains":
+		tv := c.info.Types[x.Args[1]]
+		var sub string
+		if tv.Value != nil {
+			_ = json.Unmarshal([]byte(tv.Value.ExactString()), &sub)
+		}
+		if len(sub) != 1 || sub[0] >= 0x80 {
+			panic(pkg + "." + name + " with an argument other than a one-character ASCII constant")
+		}
+		if name == "Index" {
+			return val{e: fmt.Sprintf("(Lib.indexChar %s %s)", es[0], leanChar(rune(sub[0]))), g: g}
+		}
+		return val{e: fmt.Sprintf("(%s.toList.contains %s)", es[0], leanChar(rune(sub[0]))), g: g}
 	case "strings.HasSuffix":
 		return val{e: fmt.Sprintf("(Lib.hasSuffix %s %s)", es[0], es[1]), g: g}
 	case "fmt.Errorf", "errors.New":
